@@ -13,6 +13,7 @@ case "$name" in
   *-e) base="${name%-e}"; wt=/tmp/seed5-$base; out=/tmp/seed5-$base-out ;;
   *-f) base="${name%-f}"; wt=/tmp/seed6-$base; out=/tmp/seed6-$base-out ;;
   *-g) base="${name%-g}"; wt=/tmp/seed7-$base; out=/tmp/seed7-$base-out ;;
+  *-h) base="${name%-h}"; wt=/tmp/seed8-$base; out=/tmp/seed8-$base-out ;;
   *)   wt=/tmp/seed-$name; out=/tmp/seed-$name-out ;;
 esac
 dst=/verif/seeded/$name
